@@ -57,6 +57,9 @@ def updBody (schema : List FieldDef) (rowId : Nat) (cols : List String) (src : L
 theorem update_eq_stmt (table : Bytes) (rowId : Nat) (cols : List String) (src : List Val) :
     update table rowId cols src =
       (relationOffset table >>= fun off => fetch off >>= fun _ => relationSchema table >>= fun schema =>
+        match checkColumns schema cols with
+        | some e => throw e
+        | none =>
         scanRight off >>= fun cells => mapS (updBody schema rowId cols src) cells >>= fun logs =>
           pure logs.flatten) := rfl
 
@@ -71,7 +74,8 @@ theorem updBody_skip (schema : List FieldDef) (rowId : Nat) (cols : List String)
 /-- the common prefix of `update` on a user table: catalog lookups, root fetch, scan -/
 theorem update_prefix {s : Store} {pt sch : Levels} {tbls : List (Bytes × Levels)} (h : Cat s pt sch tbls)
     (table : Bytes) (t : Levels) (ht : (table, t) ∈ tbls) (schema : List FieldDef)
-    (hsch : schemaOf sch table = some schema) (rowId : Nat) (cols : List String) (src : List Val) :
+    (hsch : schemaOf sch table = some schema) (rowId : Nat) (cols : List String) (src : List Val)
+    (hnames : checkColumns schema cols = none) :
     ∃ s4 cs, Same s s4 ∧ Cat s4 pt sch tbls ∧ cs.map (·.1) = live t ∧
       (∀ x ∈ cs, ∃ p ∈ t.leaves, x.2 = p.1.off ∧ x.1 ∈ p.1.cells) ∧
       update table rowId cols src s =
@@ -83,16 +87,19 @@ theorem update_prefix {s : Store} {pt sch : Levels} {tbls : List (Bytes × Level
   obtain ⟨s4, cs, e4, hs4, hcs, hleaf⟩ := scan_cat s3 t _ hHt3 hIt3 (by omega) hl3
   have hs : Same s s4 := ((hs1.trans hs2).trans hs3).trans hs4
   refine ⟨s4, cs, hs, h.of_same hs, hcs, hleaf, ?_⟩
-  rw [update_eq_stmt, bind_ok e1, bind_ok e2, bind_ok e3, bind_ok e4]
+  rw [update_eq_stmt, bind_ok e1, bind_ok e2, bind_ok e3]
+  simp only [hnames]
+  rw [bind_ok e4]
 
 /-- **(c) UPDATE of a row id no live row has** (none at all, or a tombstone, which the scan does not
 see): no log record, nothing changes but the cache. -/
 theorem update_cat_absent {s : Store} {pt sch : Levels} {tbls : List (Bytes × Levels)} (h : Cat s pt sch tbls)
     (table : Bytes) (t : Levels) (ht : (table, t) ∈ tbls) (schema : List FieldDef)
     (hsch : schemaOf sch table = some schema) (rowId : Nat) (cols : List String) (src : List Val)
+    (hnames : checkColumns schema cols = none)
     (habs : ∀ c ∈ live t, c.key ≠ rowId) :
     ∃ s', update table rowId cols src s = .ok [] s' ∧ Same s s' ∧ Cat s' pt sch tbls := by
-  obtain ⟨s4, cs, hs, hc, hcs, _, hrun⟩ := update_prefix h table t ht schema hsch rowId cols src
+  obtain ⟨s4, cs, hs, hc, hcs, _, hrun⟩ := update_prefix h table t ht schema hsch rowId cols src hnames
   refine ⟨s4, ?_, hs, hc⟩
   have hskip := mapS_skip (updBody schema rowId cols src) s4 cs (fun a ha =>
     updBody_skip schema rowId cols src a s4
@@ -115,6 +122,7 @@ counter advances, the other header fields stay; the catalog invariant holds afte
 theorem update_cat {s : Store} {pt sch : Levels} {tbls : List (Bytes × Levels)} (h : Cat s pt sch tbls)
     (table : Bytes) (t : Levels) (ht : (table, t) ∈ tbls) (schema : List FieldDef)
     (hsch : schemaOf sch table = some schema) (rowId : Nat) (cols : List String) (src : List Val)
+    (hnames : checkColumns schema cols = none)
     (c : LeafCell) (hc : c ∈ live t) (hk : c.key = rowId) (m : Vals) (buf : Bytes)
     (hdec : decodeTuple schema c.val [] = .ok m)
     (henc : encodeTuple schema ((cols.zip src).reverse ++ m) = .ok buf)
@@ -125,7 +133,7 @@ theorem update_cat {s : Store} {pt sch : Levels} {tbls : List (Bytes × Levels)}
       s'.hdr.nextLSN = s.hdr.nextLSN + 1 ∧ s'.hdr.lastKey = s.hdr.lastKey ∧
       s'.hdr.ptRoot = s.hdr.ptRoot ∧ s'.hdr.nextFree = s.hdr.nextFree ∧
       ∀ off, off ≠ l.off → view s' off = view s off := by
-  obtain ⟨s4, cs, hs, hc4, hcs, hleaf, hrun⟩ := update_prefix h table t ht schema hsch rowId cols src
+  obtain ⟨s4, cs, hs, hc4, hcs, hleaf, hrun⟩ := update_prefix h table t ht schema hsch rowId cols src hnames
   obtain ⟨hHt4, hIt4, _, _, _⟩ := hc4.tree t (Cat.tb_mem ht)
   -- the scanned cell
   obtain ⟨x, hx, hxc⟩ : ∃ x ∈ cs, x.1 = c := by
@@ -210,6 +218,34 @@ theorem update_live (t : Levels) (rowId lsn : Nat) (buf : Bytes) :
     live (setVal t rowId lsn buf) =
       (live t).map (fun c => if c.key == rowId then { c with val := buf } else c) :=
   live_setVal t rowId lsn buf
+
+/-- **(c)** A column list naming a column the table does not have, or one column twice, is refused
+with the error `checkColumns` reports, before the scan; nothing changes but the cache. -/
+theorem update_names_refused {s : Store} {pt sch : Levels} {tbls : List (Bytes × Levels)} (h : Cat s pt sch tbls)
+    (table : Bytes) (t : Levels) (ht : (table, t) ∈ tbls) (schema : List FieldDef)
+    (hsch : schemaOf sch table = some schema) (rowId : Nat) (cols : List String) (src : List Val)
+    (e : SErr) (hnames : checkColumns schema cols = some e) :
+    ∃ s', update table rowId cols src s = .err e s' ∧ Same s s' ∧ Cat s' pt sch tbls := by
+  obtain ⟨s1, e1, hs1, hc1⟩ := relationOffset_cat h table t ht
+  obtain ⟨n, s2, e2, hs2, hc2⟩ := fetch_root_cat hc1 ht
+  obtain ⟨s3, e3, hs3, hc3⟩ := relationSchema_cat hc2 table schema hsch
+  refine ⟨s3, ?_, (hs1.trans hs2).trans hs3, hc3⟩
+  rw [update_eq_stmt, bind_ok e1, bind_ok e2, bind_ok e3]
+  simp only [hnames]
+  rfl
+
+/-- an UPDATE of one row id that succeeded had a column list that passes `checkColumns` -/
+theorem update_ok_names {s s1 : Store} {pt sch : Levels} {tbls : List (Bytes × Levels)} (h : Cat s pt sch tbls)
+    {table : Bytes} {t : Levels} (ht : (table, t) ∈ tbls) {schema : List FieldDef}
+    (hsch : schemaOf sch table = some schema) {rowId : Nat} {cols : List String} {src : List Val}
+    {logs : List WalRec} (hrun : update table rowId cols src s = .ok logs s1) :
+    checkColumns schema cols = none := by
+  cases hcc : checkColumns schema cols with
+  | none => rfl
+  | some e =>
+    obtain ⟨s', he, _⟩ := update_names_refused h table t ht schema hsch rowId cols src e hcc
+    rw [hrun] at he
+    cases he
 
 /-- **(c)** …and a table the catalog does not know is refused with `tableNotExist`. -/
 theorem update_unknown_table {s : Store} {pt sch : Levels} {tbls : List (Bytes × Levels)}
